@@ -508,6 +508,11 @@ func nonCanonicalNative(x any, path string) string {
 	case nil, bool, int, float64, string:
 		return ""
 	case []any:
+		if t == nil {
+			// an empty List is exported as an empty slice, not as a nil one (they differ under
+			// reflect.DeepEqual and encoding/json: [] versus null)
+			return fmt.Sprintf("%s is a nil slice", path)
+		}
 		for i, e := range t {
 			if s := nonCanonicalNative(e, fmt.Sprintf("%s[%d]", path, i)); s != "" {
 				return s
@@ -515,6 +520,9 @@ func nonCanonicalNative(x any, path string) string {
 		}
 		return ""
 	case map[string]any:
+		if t == nil {
+			return fmt.Sprintf("%s is a nil map", path)
+		}
 		for k, e := range t {
 			if s := nonCanonicalNative(e, fmt.Sprintf("%s[%q]", path, k)); s != "" {
 				return s
